@@ -159,6 +159,7 @@ func runConcurrent(args []string) error {
 	specEvery := fs.Int("spec-every", 25, "one call in N is a whole-specification validation")
 	full := fs.Bool("full", false, "validatedebug build")
 	procs := fs.Int("procs", 0, "GOMAXPROCS (0 = all)")
+	poison := fs.Bool("poison", true, "scribble over redeemed objects")
 	fs.Parse(args)
 	if *procs > 0 {
 		runtime.GOMAXPROCS(*procs)
@@ -196,7 +197,11 @@ func runConcurrent(args []string) error {
 		validate.VerifResetPools()
 		hook.Forget()
 		rec.Drain()
-		rec.SetMode("poison")
+		if *poison {
+			rec.SetMode("poison")
+		} else {
+			rec.SetMode("plain")
+		}
 		rec.Recording(*record)
 		rec.Mark(hook.PoolEvent{Kind: "reset", G: 1})
 		for _, sp := range shared {
